@@ -143,7 +143,13 @@ type State struct {
 	seq       int
 	reach     map[string]bool
 	steps     int
-	obs       []string
+	obs       []ObsEnt
+	failed    []string
+}
+
+type ObsEnt struct {
+	name string
+	v    Value
 }
 
 func cloneFrames(fs []*Frame) []*Frame {
@@ -188,7 +194,8 @@ func (s *State) clone() *State {
 	n.sched = append([]int(nil), s.sched...)
 	n.pc = append(make([]*Term, 0, len(s.pc)+8), s.pc...)
 	n.inputs = append([]Input(nil), s.inputs...)
-	n.obs = append([]string(nil), s.obs...)
+	n.obs = append([]ObsEnt(nil), s.obs...)
+	n.failed = append([]string(nil), s.failed...)
 	n.reach = make(map[string]bool, len(s.reach))
 	for k := range s.reach {
 		n.reach[k] = true
